@@ -58,6 +58,17 @@ theorem create_append_pair {ω : Type} (d : Zone) (k : Str) (x : Int) (w : ω) :
   · simp only [Bool.not_true, Bool.false_eq_true, if_false, ok_bind, setDefault_present d k [] h]
     rw [getItem_getD _ _ h, ok_bind, setItem_getD_append _ _ _ h]
 
+/-- the same turn written `resData.setdefault(chain, []).append(num)` -/
+theorem setdefault_append_pair {ω : Type} (d : Zone) (k : Str) (x : Int) (w : ω) :
+    (Py.Dict.getItem (Py.Dict.setdefault d k []) k >>= fun t =>
+        (Except.ok (Py.Dict.setItem (Py.Dict.setdefault d k []) k (t ++ [x]), w) : Except Err _))
+      = Except.ok ((Model.Dict.setDefault d k []).extend k [x], w) := by
+  rw [setdefault_eq, getItem_getD _ _ (contains_setDefault d k []), ok_bind, setItem_getD_append _ _ _ (contains_setDefault d k [])]
+
+/-- one turn of the dictionary loop, in either spelling -/
+macro "zone_step" : tactic =>
+  `(tactic| first | exact create_append_pair _ _ _ _ | exact setdefault_append_pair _ _ _ _)
+
 theorem foldl_zone_pair {ω : Type} (w : ω) : ∀ (l : List (Str × Int)) (d : Zone),
     l.foldl (fun (acc : Zone × ω) res => ((Model.Dict.setDefault acc.1 res.1 []).extend res.1 [res.2], acc.2)) (d, w)
       = (l.foldl (fun (d : Zone) res => (d.setDefault res.1 []).extend res.1 [res.2]) d, w)
@@ -95,19 +106,19 @@ theorem genr_compute_lzone_eq_model (p2s : Str → Except Err (List Atom)) (ref 
     · simp only [hlt, decide_true, if_true, ok_bind]
       cases save
       · simp only [Bool.false_eq_true, if_false, ok_bind, zoneWrites]
-        rw [zone_loop _ (fun acc res => create_append_pair _ _ _ _)]
+        rw [zone_loop _ (fun acc res => by zone_step)]
         rfl
       · simp only [if_true, zoneWrites, zoneFileName]
         cases filename <;> (try simp only [bind_assoc, ok_bind]) <;> (repeat (apply bind_congr'; intro _)) <;>
-          ((try simp only [ok_bind]); rw [zone_loop _ (fun acc res => create_append_pair _ _ _ _)]; rfl)
+          ((try simp only [ok_bind]); rw [zone_loop _ (fun acc res => by zone_step)]; rfl)
     · simp only [hlt, decide_false, Bool.false_eq_true, if_false, ok_bind]
       cases save
       · simp only [Bool.false_eq_true, if_false, ok_bind, zoneWrites]
-        rw [zone_loop _ (fun acc res => create_append_pair _ _ _ _)]
+        rw [zone_loop _ (fun acc res => by zone_step)]
         rfl
       · simp only [if_true, zoneWrites, zoneFileName]
         cases filename <;> (try simp only [bind_assoc, ok_bind]) <;> (repeat (apply bind_congr'; intro _)) <;>
-          ((try simp only [ok_bind]); rw [zone_loop _ (fun acc res => create_append_pair _ _ _ _)]; rfl)
+          ((try simp only [ok_bind]); rw [zone_loop _ (fun acc res => by zone_step)]; rfl)
   · simp [throw_eq_error, error_bind]
 
 /-! ### `compute_izone` -/
@@ -116,6 +127,11 @@ theorem foldl_concat_pair {ω κ : Type} (w : ω) : ∀ (l : List (κ × List Na
     l.foldl (fun (a : List Nat × ω) it => (a.1 ++ it.2, a.2)) (acc, w) = (acc ++ l.flatMap (·.2), w)
   | [], acc => by simp
   | x :: l, acc => by simp only [List.foldl_cons, List.flatMap_cons, foldl_concat_pair w l, List.append_assoc]
+
+theorem foldl_concat_pair_values {ω κ : Type} (w : ω) : ∀ (l : List (κ × List Nat)) (acc : List Nat),
+    (l.map (·.2)).foldl (fun (a : List Nat × ω) v => (a.1 ++ v, a.2)) (acc, w) = (acc ++ l.flatMap (·.2), w)
+  | [], acc => by simp
+  | x :: l, acc => by simp only [List.map_cons, List.foldl_cons, List.flatMap_cons, foldl_concat_pair_values w l, List.append_assoc]
 
 /-- `compute_izone` on a table, with the contact routine as a parameter -/
 def computeIzoneWith (gca : List Atom → Rat → Str → Str → Except Err (Model.Dict Str (List Nat))) (tref : List Atom) (cutoff : Rat) :
@@ -146,9 +162,12 @@ theorem genr_compute_izone_eq_model (p2s : Str → Except Err (List Atom))
   · simp only [List.length_cons, List.length_nil, ne_eq, decide_not, Nat.reduceAdd, decide_true, Bool.not_true,
       Bool.false_eq_true, if_false, (getItem_two c0 c1).1, (getItem_two c0 c1).2, ok_bind, pure_eq_ok, bind_assoc]
     apply bind_congr'; intro contact
-    rw [foldlM_congr (g := fun (a : List Nat × List GenR.Rt2.Write) (it : Str × List Nat) => Except.ok (a.1 ++ it.2, a.2)) (fun a it => rfl),
-      foldlM_pure, Py.Dict.items,
-      foldl_concat_pair]
+    -- `for _, v in contact_ref.items()` or `for v in contact_ref.values()`
+    first
+      | rw [foldlM_congr (g := fun (a : List Nat × List GenR.Rt2.Write) (it : Str × List Nat) => Except.ok (a.1 ++ it.2, a.2)) (fun a it => rfl),
+          foldlM_pure, Py.Dict.items, foldl_concat_pair]
+      | rw [foldlM_congr (g := fun (a : List Nat × List GenR.Rt2.Write) (v : List Nat) => Except.ok (a.1 ++ v, a.2)) (fun a v => rfl),
+          foldlM_pure, Py.Dict.values, foldl_concat_pair_values]
     simp only [ok_bind, List.nil_append, sorted_set_cr, zone_lines_eq, Py.Tbl.select, List.map_map, List.map_id',
       Py.Dict.empty, Function.comp_def]
     have hsel : List.filter (fun r : Py.Tbl.IRow => decide (r.2 ∈ List.flatMap (fun x => x.2) contact) &&
@@ -161,11 +180,11 @@ theorem genr_compute_izone_eq_model (p2s : Str → Except Err (List Atom))
     simp only [hsel]
     cases save
     · simp only [Bool.false_eq_true, if_false, ok_bind, zoneWrites]
-      rw [zone_loop _ (fun acc res => create_append_pair _ _ _ _)]
+      rw [zone_loop _ (fun acc res => by zone_step)]
       rfl
     · simp only [if_true, zoneWrites, zoneFileName]
       cases filename <;> (try simp only [bind_assoc, ok_bind]) <;> (repeat (apply bind_congr'; intro _)) <;>
-        ((try simp only [ok_bind]); rw [zone_loop _ (fun acc res => create_append_pair _ _ _ _)]; rfl)
+        ((try simp only [ok_bind]); rw [zone_loop _ (fun acc res => by zone_step)]; rfl)
   · simp [throw_eq_error, error_bind]
 
 end Proofs.GenRmsd
